@@ -23,9 +23,15 @@ FLAGSETS = [[], ["json"], ["text"], ["sql"], ["json", "text"], ["json", "sql"], 
             ["sql", "gorm"], ["json", "text", "sql", "gorm"]]
 
 
-def make_cases(ctx, cid, en, flags):
+GEN = [None]
+
+
+def make_cases(ctx, cid, en, flags, mode=None):
     rng = ctx.rng
     T = en["T"]
+    if GEN[0] is None:
+        GEN[0] = enumgen.EnumGen(ctx.rng)
+    lay = enumgen.layout(ctx, GEN[0], en, force=mode)
     _, decl = enumgen.classify(en)
     kind = en["kind"]
     lo, hi = enumgen.krange(kind)
@@ -45,8 +51,8 @@ def make_cases(ctx, cid, en, flags):
     extra = [["flags"] + flags, ["target", str(target)], ["strs"] + [Q(s) for s in strs],
              ["jsons"] + [l for _, l in jsons], ["sqls"] + [l for _, l in sqls],
              ["ints"] + [[tv] + [str(v) for v in vs] for tv, vs in main_ints], ["encs"] + [str(v) for v in encs]]
-    args = ["enum"] + ["-" + f for f in flags] + ["-type=" + T]
-    main = {"id": cid, "en": en, "decl": decl, "flags": flags, "files": enumgen.render_files(en),
+    args = ["enum"] + ["-" + f for f in flags] + lay["sel"]
+    main = {"id": cid, "en": en, "decl": decl, "flags": flags, "files": lay["files"], "mode": lay["mode"],
             "runs": [{"args": args}],
             "oracle": {".": enumgen.oracle_c12(en, decl, flags, target, strs, jsons, sqls, main_ints, encs, tints)},
             "sexp": enumgen.case_sexp(cid, "c12", en, extra), "cmd": "shoot " + " ".join(args), "kind": "main",
@@ -139,6 +145,7 @@ def run(ctx, obl):
             for f in enumgen.features_of(main["en"]):
                 res.hist("features", f)
             res.hist("flagset", "+".join(main["flags"]) or "none")
+            res.hist("run-mode", main["mode"])
             res.hist("requested-feature", main["en"].get("feature", "random"))
             res.hist("constants", str(len(main["decl"])))
         core.compare_cases(ctx, res, cases, impl, model, sig=sig,
@@ -151,7 +158,9 @@ def run(ctx, obl):
                     v.setdefault("sources", c.get("files"))
                     v.setdefault("enum", c["en"])
                     v.setdefault("flags", c["flags"])
-    res.rule = ("enums of the C04 grammar (negative constants and constants above MaxInt64 included), one per case, cycling "
+                    v.setdefault("mode", c.get("mode"))
+    res.rule = ("enums of the C04 grammar (negative constants and constants above MaxInt64 included), one per case (generated alone, after a companion "
+                "enum type in the same run, or by -file= with constants spread over several files - see C04), cycling "
                 "through all 2^3 codec flag sets plus `-sql -gorm` and `-json -text -sql -gorm` (gorm.io/gorm is a two-type stub module); the real "
                 "json.Marshal/Unmarshal, encoding.TextMarshaler/TextUnmarshaler, driver.DefaultParameterConverter/driver.Valuer/sql.Scanner and "
                 "shoot.ParseEnum/TryParseEnum/IsEnum are executed on: every declared (trimmed) name, lower/upper/swapped case variants, constant names "
@@ -173,7 +182,7 @@ def replay(ctx, payload):
     if not en:
         print(payload.get("case") or payload)
         return 0
-    main, sub = make_cases(ctx, "replay", en, list(payload.get("flags") or []))
+    main, sub = make_cases(ctx, "replay", en, list(payload.get("flags") or []), mode=payload.get("mode"))
     for fn, src in main["files"].items():
         print("---- %s\n%s" % (fn, src))
     cases, impl, model = run_cases(ctx, [(main, sub)])
